@@ -31,11 +31,20 @@ def build(ctx, i):
             ts, r = zoo.sim(rng)
     if i % 4 == 0 and ts.num_trees < 3:
         ts, r = zoo.sim(rng, n=int(rng.integers(4, 12)), rec=None, L=1e4)
+    force_unphased = False
+    if method == "variational_gamma" and i % 9 == 3:
+        # diploid individuals whose singletons were all filtered out (blocks with zero mutations)
+        ts, r = zoo.sim(rng, n=int(rng.integers(3, 8)), ploidy=2, L=1e4, mut_per_edge=3.0)
+        ts = zoo.drop_singletons(ts)
+        r["gen"] = "diploid_no_singletons"
+        force_unphased = ts.num_mutations > 0
+        if not force_unphased:
+            ts, r = zoo.sim(rng, ploidy=2)
     kw = {"mutation_rate": common.default_mu(ts, r)}
     extra = {}
     if method == "variational_gamma":
         kw.update(common.vg_kwargs(rng))
-        if ts.num_individuals and common.can_unphase(ts) and rng.random() < 0.4:
+        if ts.num_individuals and common.can_unphase(ts) and (force_unphased or rng.random() < 0.4):
             kw["singletons_phased"] = False
     else:
         Ne = r.get("Ne", 100.0)
@@ -78,6 +87,8 @@ def case(ctx, i, rec):
         return
     if ts.num_trees >= 3:
         rec.count("inputs_with_3plus_trees")
+    if r.get("gen") == "diploid_no_singletons" and kw.get("singletons_phased") is False:
+        rec.count("unphased_inputs_without_singletons")
     done = 0
     for c, rtol, label in cs:
         tsc, kc = scaled_call(ts, method, kw, extra, c)
@@ -108,7 +119,7 @@ def case(ctx, i, rec):
 
 
 def reach(ctx, agg):
-    need = {"inputs_with_3plus_trees": 30}
+    need = {"inputs_with_3plus_trees": 30, "unphased_inputs_without_singletons": 2}
     for m in common.METHODS:
         need[f"pairs:{m}:pow2"] = 8
         need[f"pairs:{m}:general"] = 8
